@@ -72,6 +72,12 @@ fn model_xml(namespace: &str, name: &str, version: &str, broken: bool) -> String
     <informationRequirement id="_ir_p_{v}"><requiredInput href="#_in_p_{v}"/></informationRequirement>
     <literalExpression><text>p</text></literalExpression>
   </decision>
+  <decision name="scale_n" id="_scale_n_{v}">
+    <variable typeRef="number" name="scale_n"/>
+    <informationRequirement id="_ir_scale_n_{v}"><requiredInput href="#_in_n_{v}"/></informationRequirement>
+    <informationRequirement id="_ir_scale_sc_{v}"><requiredInput href="#_in_sc_{v}"/></informationRequirement>
+    <literalExpression><text>decimal(n, sc)</text></literalExpression>
+  </decision>
   <decision name="echo_mix" id="_echo_mix_{v}">
     <variable typeRef="Any" name="echo_mix"/>
     <informationRequirement id="_ir_mix_s_{v}"><requiredInput href="#_in_s_{v}"/></informationRequirement>
@@ -129,9 +135,10 @@ pub fn alphabet() -> Vec<AlphaModel> {
 pub const BULK_MODELS: usize = 24;
 
 /// Typed inputs of the echo decisions `echo_<input>` (input data must be typed in this implementation).
-pub const ECHO_INPUTS: [(&str, &str); 8] = [
+pub const ECHO_INPUTS: [(&str, &str); 9] = [
   ("s", "string"),
   ("n", "number"),
+  ("sc", "number"),
   ("b", "boolean"),
   ("d", "date"),
   ("t", "time"),
